@@ -55,6 +55,8 @@ type c14rWorld struct {
 	// when each Subscribe call returned its information to the controller
 	subDelay int64
 	subRet   []c14rSubRet
+	// allLate: none of the validators is active before the second epoch after the one vouch starts in
+	allLate bool
 }
 
 type c14rSubRet struct {
@@ -119,7 +121,7 @@ func (w *c14rWorld) AggregatorsAndSignatures(_ context.Context, accounts []e2wty
 }
 
 func c14rBody(w *c14rWorld, startAt int64, ap [2]string, attestDur, subDelay int64) {
-	*w = c14rWorld{c03World: &c03World{attKinds: ap, propKinds: [2]string{"A", "A"}, startAt: startAt, reorgAt: -1, attestDur: attestDur}, subDelay: subDelay}
+	*w = c14rWorld{c03World: &c03World{attKinds: ap, propKinds: [2]string{"A", "A"}, startAt: startAt, reorgAt: -1, attestDur: attestDur}, subDelay: subDelay, allLate: w.allLate}
 	ctx, cancel := mcontext.WithCancel(context.Background())
 	defer cancel()
 	ct := newChainTime(-(int64(c03Epoch0*c03SPE)*int64(c03SlotDur) + startAt), c03SlotDur, c03SPE)
@@ -131,6 +133,10 @@ func c14rBody(w *c14rWorld, startAt int64, ap [2]string, attestDur, subDelay int
 	}
 	// validator 3 becomes active with the epoch after the one vouch starts in: the accounts of the two epochs differ
 	accts := &accountsTable{byIndex: byIndex, activeFrom: map[phase0.ValidatorIndex]phase0.Epoch{3: phase0.Epoch(c03Epoch0 + 1)}}
+	if w.allLate {
+		late := phase0.Epoch(c03Epoch0 + 2)
+		accts.activeFrom = map[phase0.ValidatorIndex]phase0.Epoch{1: late, 2: late, 3: late}
+	}
 	ev := &eventsProvider{}
 	subscriber, err := standardsubscriber.New(ctx, standardsubscriber.WithLogLevel(zerolog.Disabled), standardsubscriber.WithMonitor(&nullmetrics.Service{}),
 		standardsubscriber.WithProcessConcurrency(2), standardsubscriber.WithChainTimeService(ct), standardsubscriber.WithAttesterDutiesProvider(c14rSlowDuties{w}),
@@ -252,6 +258,22 @@ func c14rCheck(w *c14rWorld, r *mc.Result) mc.Verdict {
 			}
 		}
 	}
+	if w.allLate {
+		// vouch ran through an epoch without any active validator; the duties of the epoch in which they become
+		// active (the same in both duty tables of these runs) are all in future slots when that epoch is prepared
+		late := phase0.Epoch(c03Epoch0 + 2)
+		for _, d := range c03AttTable(w.attKinds[0], late) {
+			ok := false
+			for _, s := range w.subs {
+				if s.slot == d.slot && s.committee == c03Committee(d.val) && s.at < w.slotStart(d.slot) {
+					ok = true
+				}
+			}
+			if !ok {
+				return fail("activation-epoch-not-subscribed", fmt.Sprintf("validator %d becomes active in epoch %d; its duty in slot %d committee %d was never subscribed", d.val, late, d.slot, c03Committee(d.val)))
+			}
+		}
+	}
 	// ... and every attestation made for a slot that was in the future when its duties were last obtained must be
 	// followed by one aggregation per committee with a selected aggregator (here: validators 1 and 3)
 	for _, c := range w.attests {
@@ -356,6 +378,19 @@ func init() {
 				}
 				units = append(units, u)
 			}
+			// all validators become active two epochs after the one vouch starts in: an epoch goes by without any
+			{
+				sa := sa
+				w := &c14rWorld{allLate: true}
+				u := hx.Unit{Name: fmt.Sprintf("C14/reorg/start%d/all-activate-later", si), Cfg: mc.Config{Deviation: true, Horizon: int64(40 * c03SlotDur)}, Bound: 0}
+				u.Body = func() { c14rBody(w, sa, [2]string{"E", "E"}, 0, 0) }
+				u.Check = func(r *mc.Result) mc.Verdict {
+					v := c14rCheck(w, r)
+					v.Nontrivial = len(w.subs) > 0
+					return v
+				}
+				units = append(units, u)
+			}
 			// a slow attester (7 s) and a beacon node that takes its time over the subscriber's duty request: the
 			// subscription information reaches the controller before, while or after a slot's attestations are made
 			for _, sd := range []int64{10, 20, 40} {
@@ -373,5 +408,5 @@ func init() {
 		}
 		return units
 	}
-	p.Rule += "; (reorg) the real controller (fast track off / on) + scheduler + subscriber run for three epochs with a head event announcing changed dependent roots in one of the next five slots (1 s or 6 s into the slot, previous or current root) and duty tables that move, drop or add duties: every duty handed out for a future slot is subscribed, and every attestation is followed by one aggregation per committee with a selected aggregator (validators 1 and 3 are selected, 2 is not) at slot start + aggregation delay; the same from the first epoch of the chain (epoch 0); the same with an attester that takes 7 s and a beacon node that takes 10 / 20 / 40 s over the subscriber's duty request: an aggregation is owed whenever the subscription information reached the controller before the attestations were made"
+	p.Rule += "; (reorg) the real controller (fast track off / on) + scheduler + subscriber run for three epochs with a head event announcing changed dependent roots in one of the next five slots (1 s or 6 s into the slot, previous or current root) and duty tables that move, drop or add duties: every duty handed out for a future slot is subscribed, and every attestation is followed by one aggregation per committee with a selected aggregator (validators 1 and 3 are selected, 2 is not) at slot start + aggregation delay; the same from the first epoch of the chain (epoch 0); the same with validators that all become active two epochs after the start (an epoch passes without any active validator; every duty of the activation epoch must be subscribed); the same with an attester that takes 7 s and a beacon node that takes 10 / 20 / 40 s over the subscriber's duty request: an aggregation is owed whenever the subscription information reached the controller before the attestations were made"
 }
